@@ -246,6 +246,24 @@ fn mutations(word: &[&str], mut f: impl FnMut(&[&str]) -> bool) {
     }
 }
 
+/// Every replacement of one token by one of `tokens` (other than itself and than the tokens `mutations` tries).
+fn replacements(word: &[&str], tokens: &[&'static str], skip: &[&str], mut f: impl FnMut(&[&str]) -> bool) {
+    let mut buf: Vec<&str> = Vec::with_capacity(word.len());
+    for i in 0..word.len() {
+        for t in tokens {
+            if *t == word[i] || skip.contains(t) {
+                continue;
+            }
+            buf.clear();
+            buf.extend_from_slice(word);
+            buf[i] = t;
+            if !f(&buf) {
+                return;
+            }
+        }
+    }
+}
+
 /// Every insertion of one of `tokens` at every position.
 fn insertions(word: &[&str], tokens: &[&'static str], mut f: impl FnMut(&[&str]) -> bool) {
     let n = word.len();
@@ -271,7 +289,7 @@ impl Engine for C04 {
     fn rule(&self, tier: Tier) -> String {
         format!(
             "(a) every sentence of G_gen (spec/grammar_gen.bnf) in three strata, each exhaustive below its bound: statement skeletons with `1`/`int`/identifier plugs up to {} tokens, every value derivation inside `defvar x = V ;` up to {} tokens, every class declaration (all type derivations, template arguments, parent lists, body items) up to {} tokens, every statement skeleton whose value positions (incl. def names, argument lists, foreach lists) hold an operator call, rendered once for each of the 52 operator spellings, and the same with !cond - each must parse without error and the tree seen through the typed accessors must equal the derivation; \
-             (b) every token-kind word of length <= {} over {} non-trivia kinds, classified by Earley recognisers of G_gen and G_rec (spec/grammar_rec.bnf); (c) for every generated sentence of at most {} tokens every single deletion, duplication, adjacent transposition, and insertion or replacement by each of {} tokens, and for every generated sentence of at most {} tokens every insertion of each of the {} non-trivia token kinds at every position{}; (d) every seed and corpus file parses without error. \
+             (b) every token-kind word of length <= {} over {} non-trivia kinds, classified by Earley recognisers of G_gen and G_rec (spec/grammar_rec.bnf); (c) for every generated sentence of at most {} tokens every single deletion, duplication, adjacent transposition, and insertion or replacement by each of {} tokens, and for every generated sentence of at most {} tokens every insertion of each of the {} non-trivia token kinds at every position (and, up to one token shorter, every replacement of a token by each of them){}; (d) every seed and corpus file parses without error. \
              Words in G_gen must have no error; words outside G_rec must have at least one; G_rec minus G_gen is a stated don't-care zone. non-trivial = sentences, and words classified outside G_rec; distinct by construction within a stratum.",
             strata(tier)[0].max_len,
             strata(tier)[1].max_len,
@@ -359,6 +377,18 @@ impl Engine for C04 {
                             }
                             ctx.case(false);
                             ctx.add("wide_insertions", 1);
+                            for f in failures(&gs, m, Membership::Unknown, None) {
+                                ctx.fail(f);
+                            }
+                            true
+                        });
+                    }
+                    // one token replaced by a token of ANY other kind
+                    if word.len() <= tier.pick(7, 8) {
+                        let skip: &[&str] = if word.len() <= tier.pick(6, 7) { MUT_TOKENS } else { &[] };
+                        replacements(&word, WORD_TOKENS, skip, |m| {
+                            ctx.case(false);
+                            ctx.add("wide_replacements", 1);
                             for f in failures(&gs, m, Membership::Unknown, None) {
                                 ctx.fail(f);
                             }
